@@ -408,16 +408,17 @@ def r11_kinds(ctx: Ctx) -> None:
     kh, kf, kt = k_str(kw_value(ctx, "KW_HARD")), k_str(kw_value(ctx, "KW_FIXED")), k_str(kw_value(ctx, "KW_TERMINAL"))
     by_dict: dict = {}
     # every store  d[key] = v  with the conditions it is under, grouped by the mapping d
-    def walk(stmts, conds):
-        for st in stmts:
+    # (a mapping is made afresh in every iteration: the stores of different loops concern different mappings, whatever the local is called)
+    def walk(stmts, conds, loop):
+        for k_, st in enumerate(stmts):
             if st[0] == "set" and len(st) == 3 and isinstance(st[1], tuple) and st[1][:1] == ("s",) and st[1][2] in (kh, kf, kt):
-                by_dict.setdefault(st[1][1], []).append((st[1][2], conds))
+                by_dict.setdefault((loop, st[1][1]), []).append((st[1][2], conds))
             elif st[0] == "if" and len(st) == 4:
-                walk(st[2], conds + (st[1],))
-                walk(st[3], conds + (mk_not(st[1]),))
+                walk(st[2], conds + (st[1],), loop)
+                walk(st[3], conds + (mk_not(st[1]),), loop)
             elif st[0] in ("for", "while"):
-                walk(st[3], conds)
-    walk(c, ())
+                walk(st[3], conds, loop + (k_,))
+    walk(c, (), ())
     n = 0
 
     def exclusive(c1, c2) -> bool:
